@@ -52,6 +52,8 @@ def replay_history(item) -> list[dict]:
         obs = st.apply(ev)
         exp = table[_hkey(pre, hist[: j + 1])]
         msgs = []
+        if obs["exc"] and mixed:
+            return []          # whether mixed-precision parameter sets are supported at all is not C06's statement
         if obs["exc"]:
             msgs.append(f"raised {obs['exc']}")
         else:
